@@ -224,7 +224,12 @@ Definition step (f : nat) (st : stmt) (s : store) : outcome :=
 Lemma exec_S_cons f st rest s :
   exec (S f) (st :: rest) s =
   match step f st s with Ok s1 tr1 CNormal => prepend tr1 (exec f rest s1) | other => other end.
-Proof. destruct st; reflexivity. Qed.
+Proof.
+  transitivity (let r1 := step f st s in
+                match r1 with Ok s1 tr1 CNormal => prepend tr1 (exec f rest s1) | other => other end).
+  - destruct st; reflexivity.
+  - cbv zeta. destruct (step f st s) as [s1 tr1 [| | |]| |]; reflexivity.
+Qed.
 
 Lemma prepend_ok t o s tr c : prepend t o = Ok s tr c -> exists tr', o = Ok s tr' c /\ tr = t ++ tr'.
 Proof. destruct o as [s0 tr0 c0| |]; cbn [prepend]; intro H; inversion H; subst. eauto. Qed.
@@ -297,10 +302,10 @@ Proof.
     apply covers_app_same.
     + eapply covers_incl; [|apply (covers_rds _ (expr_reads lo ++ expr_reads hi ++ expr_reads st))].
       * apply incl_appr, incl_appl, incl_refl.
-      * intros l0 Hl. repeat (apply in_app_iff in Hl as [Hl|Hl] || apply in_app_iff);
-          rewrite ?in_app_iff; eauto using ereads_sub.
+      * intros l0 Hl. apply in_app_iff in Hl as [Hl|Hl]; [|apply in_app_iff in Hl as [Hl|Hl]];
+          apply (ereads_sub s) in Hl; rewrite !in_app_iff; auto.
     + eapply covers_incl; [|exact H]. intros p [<-|Hp]; [left; reflexivity|].
-      right. right. apply in_app_iff. right. exact Hp.
+      right. right. cbn [app]. apply in_app_iff. right. exact Hp.
   - inversion H; subst. apply covers_nil.
   - inversion H; subst. apply covers_nil.
   - inversion H; subst. apply covers_nil.
@@ -356,6 +361,7 @@ Proof.
 Qed.
 
 (* non-vacuity: a loop nest with an IF, offsets and a zero-trip inner loop runs to completion and reads/writes *)
+Local Open Scope nat_scope.
 Definition ex_prog : list stmt :=
   [SDo 0 (ELit 1) (EVar 5) (ELit 1)
      [SIf (EBin Gt (EIdx 3 [EVar 0]) (ELit 0))
@@ -363,17 +369,20 @@ Definition ex_prog : list stmt :=
           [SAssign 6 [] (EIntr IMax [EVar 6; EIntr IUbound [EVar 3; ELit 1]])];
       SDo 1 (ELit 3) (ELit 2) (ELit 1) [SAssign 4 [EVar 1] (ELit 0)]]].
 Definition ex_store : store :=
-  store_of [((5, []), 3); ((3, [1]), 2); ((3, [2]), -1); ((3, [3]), 4); ((6, []), 7)]%Z [(3, [(1, 3)])]%Z.
+  store_of [((5, []), 3%Z); ((3, [1%Z]), 2%Z); ((3, [2%Z]), (-1)%Z); ((3, [3%Z]), 4%Z); ((6, []), 7%Z)]
+           [(3, [(1%Z, 3%Z)])].
 
 Example covers_nonvacuous :
   forallb noprint ex_prog = true /\
   match exec 50 ex_prog ex_store with
-  | Ok _ tr c => length (reads tr) = 17 /\ length (writes tr) = 11 /\ c = CNormal
+  | Ok _ tr c => length (reads tr) = 16 /\ length (writes tr) = 10 /\ c = CNormal
   | _ => False
   end.
 Proof. vm_compute. repeat split. Qed.
 
 (* ------------------------------------------------------------------ order: RHS before LHS *)
+Definition lname (l : loc) : name := fst l.
+
 Lemma opt_all_some {A B} (f : A -> option B) l vs :
   opt_all (map f l) = Some vs -> Forall (fun a => exists v, f a = Some v) l.
 Proof.
@@ -391,33 +400,33 @@ Lemma Forall_and_ex {A} (P Q : A -> Prop) l :
 Proof. induction 1; intro H'; inversion H'; subst; constructor; auto. Qed.
 
 (* when an expression evaluates, the variables of its dynamic reads are exactly its static reads, in order *)
-Lemma ereads_exact s e : forall v, eval s e = Some v -> map fst (ereads s e) = expr_reads e.
+Lemma ereads_exact s e : forall v, eval s e = Some v -> map lname (ereads s e) = expr_reads e.
 Proof.
   induction e using expr_ind'; intros v Hv; cbn [eval ereads expr_reads] in *.
   - reflexivity.
   - reflexivity.
   - destruct (opt_all (map (eval s) ix)) as [vs|] eqn:E; [|discriminate].
-    rewrite map_app. cbn [map fst]. f_equal.
+    rewrite map_app. cbn [map lname fst]. f_equal.
     apply map_flat_map_eq. apply opt_all_some in E.
     eapply Forall_and_ex; [|exact E]. eapply Forall_impl; [|exact H].
-    intros a Ha [va Hva]. eapply Ha, Hva.
+    intros e0 He0 [va Hva]. eapply He0, Hva.
   - destruct (eval s e) as [a|] eqn:E; [|discriminate]. eapply IHe. reflexivity.
   - destruct (eval s e1) as [a|] eqn:E1; [|discriminate]. destruct (eval s e2) as [b|] eqn:E2; [|discriminate].
-    rewrite map_app. erewrite IHe1, IHe2; reflexivity.
+    rewrite map_app. f_equal; [apply (IHe1 a eq_refl) | apply (IHe2 b eq_refl)].
   - destruct (is_inquiry f).
     + destruct args as [|a0 r]; [reflexivity|]. inversion H as [|? ? _ Hr]; subst.
       destruct (opt_all (map (eval s) r)) as [vs|] eqn:E; [|discriminate].
       apply map_flat_map_eq. apply opt_all_some in E.
       eapply Forall_and_ex; [|exact E]. eapply Forall_impl; [|exact Hr].
-      intros a Ha [va Hva]. eapply Ha, Hva.
+      intros e0 He0 [va Hva]. eapply He0, Hva.
     + destruct (opt_all (map (eval s) args)) as [vs|] eqn:E; [|discriminate].
       apply map_flat_map_eq. apply opt_all_some in E.
       eapply Forall_and_ex; [|exact E]. eapply Forall_impl; [|exact H].
-      intros a Ha [va Hva]. eapply Ha, Hva.
+      intros e0 He0 [va Hva]. eapply He0, Hva.
 Qed.
 
 Lemma ereads_flat_exact s es vs : opt_all (map (eval s) es) = Some vs ->
-  map fst (flat_map (ereads s) es) = flat_map expr_reads es.
+  map lname (flat_map (ereads s) es) = flat_map expr_reads es.
 Proof.
   intro E. apply map_flat_map_eq. apply opt_all_some in E. eapply Forall_impl; [|exact E].
   intros a [va Hva]. eapply ereads_exact, Hva.
@@ -425,9 +434,9 @@ Qed.
 
 (* the (variable, kind) sequence of a trace *)
 Definition ev_sk (e : event) : list (name * akind) :=
-  match e with Rd l => [(fst l, READ)] | Wr l => [(fst l, WRITE)] | _ => [] end.
+  match e with Rd l => [(lname l, READ)] | Wr l => [(lname l, WRITE)] | _ => [] end.
 
-Lemma ev_sk_rds R : flat_map ev_sk (rds R) = map rdk (map fst R).
+Lemma ev_sk_rds R : flat_map ev_sk (rds R) = map rdk (map lname R).
 Proof. induction R as [|l r IH]; [reflexivity|]. cbn [rds map flat_map ev_sk app]. unfold rds in IH. rewrite IH. reflexivity. Qed.
 
 (* the access list of an assignment IS the sequence of its dynamic accesses: RHS reads (left to right,
@@ -441,7 +450,7 @@ Proof.
   destruct (opt_all (map (eval st) ix)) as [vs|] eqn:Ei; [|discriminate].
   destruct (eval st e) as [v|] eqn:Ee; [|discriminate].
   destruct f as [|f]; [discriminate|]. cbn [exec prepend] in H. inversion H; subst.
-  rewrite app_nil_r. rewrite flat_map_app, ev_sk_rds. cbn [flat_map ev_sk app fst].
+  rewrite app_nil_r. rewrite flat_map_app, ev_sk_rds. cbn [flat_map ev_sk app lname fst].
   rewrite map_app, (ereads_exact st e v Ee), (ereads_flat_exact st ix vs Ei).
   rewrite sk_acc_stmt. cbn [racc_stmt]. rewrite map_app, <- app_assoc. reflexivity.
 Qed.
@@ -497,7 +506,7 @@ Qed.
 Theorem access_refuted_codeblock_ :
   exists ss st st' tr c l, exec 5 ss st = Ok st' tr c /\ In l (reads tr) /\ is_read (fst l) (accesses ss) = false.
 Proof.
-  exists [SPrint [EIdx 1 [EVar 0]]], (store_of [((0, []), 2)]%Z []).
+  exists [SPrint [EIdx 1 [EVar 0]]], (store_of [((0, []), 2%Z)] []).
   eexists. eexists. eexists. exists (0, []).
   split; [vm_compute; reflexivity|]. split; [vm_compute; left; reflexivity | vm_compute; reflexivity].
 Qed.
